@@ -51,6 +51,7 @@ class Prop:
     not_decided: str = ""
     step_hooks: dict = field(default_factory=dict)     # contract key -> [hook]
     min_obligations: int = 1
+    parts: list = field(default_factory=list)          # [(module, [contract keys])] functions verified under another module's registry for this property
 
 
 @dataclass
@@ -171,6 +172,8 @@ def run_property(build_mod: str, pid: str, argv=None) -> int:
     # ---- 1. deductive part: every contracted function, in parallel
     keys = [c.key for c in prop.verify if not a.only or a.only in c.key]
     jobs = [(build_mod, pid, repo, a.tier, seed, k) for k in keys]
+    for part_mod, part_keys in prop.parts:
+        jobs += [(part_mod, pid, repo, a.tier, seed, k) for k in part_keys if not a.only or a.only in k]
     reports = []
     if jobs:
         if a.jobs > 1 and len(jobs) > 1:
